@@ -29,6 +29,18 @@ CLAIMED = {
    text="Machine-checked Lean 4 proof: detached round trip; soundness (success only through a verified signature, under the key looked up for the header's signer, on exactly domain_detached || hash(hash(header bytes) || message), with format name, admitted version and detached mode checked); the three domain strings (generated from /repo) are pairwise non-prefix, so attached/signcryption signatures are signatures on different inputs. Tied to /repo by byte-exact SignDetached and outcome-exact VerifyDetached on every single-bit change of message and signature, every truncation, header edits, attached-as-detached and transplants.",
    note="Assumes Prims.Lawful for the round trip; soundness holds for every Prims. 'Signer really signed' is then C06's reduction (signature forgery / hash collision as explicit Break). Trusted base as C01; SHA-512 streaming = one-shot.",
    technique="Lean 4 proof (case analysis of the verifier; decide on generated domain strings) + differential correspondence", design="§7 C07"),
+ "C02": dict(
+   text="Machine-checked Lean 4 proof over the packet-level model of decrypt.go/chunk_reader.go, for ARBITRARY packet streams and keyrings: (A) released bytes are the in-order chunks of an accepted prefix of the packets; the run ends cleanly iff the packets are exactly one complete message (only the last final) and the input ends cleanly after it; all-at-once returns nothing otherwise; (B) an accepted packet binds MAC key, header hash, packet number (nonce), final flag and ciphertext (unique decomposition of the MACed string); (reduction) released bytes are the first m chunks of ONE honest message with this header hash, all iff clean, or nothing released and failure, or an explicit Break (MAC forgery under the receiver's MAC key / hash collision) - adversary may know the payload key. Tied to /repo by an outcome/released-bytes/call-log differential on ~2k (quick) tree-level, packet-level, byte-level mutations and co-recipient forgeries of multi-packet messages built by the Lean reference sender with small chunks, with go-codec's own decoding fed to the model wherever the model does not claim to know it; the authenticity predicate is evaluated on every implementation answer.",
+   note="No security assumption: Break is a disjunct. Assumes Prims.Lawful; hkey (an honest message with this header hash used the payload key the receiver derived - C01 for the header, absent a header-hash collision). Attribution (sender key = content of the sender secretbox) is by correspondence + predicate, not yet a theorem. Trusted: Lean kernel, go-codec (decoded-packets route), harness.",
+   technique="Lean 4 proof (induction over packet chains; injectivity of fixed-width concatenations; classical reduction to explicit Break events) + mutation differential correspondence", design="§7 C02, §4.3"),
+ "C04": dict(
+   text="As C02 for signcrypt_open.go: stream logic, binding of an accepted chunk to a verified Ed25519 signature over domain||header hash||nonce(final bit, chunk number)||final||SHA-512(chunk), empty chunks only as sole final chunk, and the reduction for named senders against adversaries who know the payload key (signature forgery / hash collision as explicit Break). Mutation differential includes insider forgeries that decrypt with the genuine payload key and re-encrypt modified plaintext, renumbered or re-flagged chunks with reused signatures.",
+   note="Anonymous senders: integrity only against parties lacking the payload key (as the property states); covered by correspondence. Otherwise as C02.",
+   technique="Lean 4 proof + mutation/forgery differential correspondence", design="§7 C04"),
+ "C06": dict(
+   text="As C02 for verify_stream.go/verify.go: stream logic; an accepted packet's signature verifies under the looked-up key on domain||SHA-512(header hash||seqno||[final]||chunk) (unique decomposition); other modes refused at the header; the reduction relative to all attached messages the key owner signed (signature forgery / hash collision as explicit Break).",
+   note="As C02 (no payload-key hypothesis needed: chunks are in the clear). items.length < 2^64 (physical bound: the Go seqno is a uint64).",
+   technique="Lean 4 proof + mutation differential correspondence", design="§7 C05/C06"),
 }
 
 ALL = ["C%02d" % i for i in range(1, 21)]
